@@ -147,6 +147,7 @@ func init() {
 					{Threads: [][]cliEv{nil, {cl}, {cl}, {cl}}},
 					{Threads: [][]cliEv{nil, {cl}, {ev("start", 0)}}},
 					{Threads: [][]cliEv{nil, {cl}, {ev("do", 0)}}},
+					{Threads: [][]cliEv{nil, {cl}, {ev("do", 0)}, {ev("resp", 0)}}},
 					{Threads: [][]cliEv{nil, {cl}, {ev("indicate", 0)}, {{K: "setrto", Arg: 5}}}},
 					{Setup: []cliEv{ev("start", 0)}, Threads: [][]cliEv{nil, {cl}, {ev("resp", 0)}}},
 					{Setup: []cliEv{ev("start", 0)}, Threads: [][]cliEv{nil, {cl}, {tickAfter}}},
